@@ -38,23 +38,33 @@ def newctx(path):
 
 
 # title universe: (stored title without prefix, namespace id)
-PAGES = [("Foo", 10), ("IPAchar", 10), ("foo bar", 828), ("Foo", 0)]
+PAGES = [("Foo", 10), ("IPAchar", 10), ("foo bar", 828), ("Foo", 0), ("lower", 10), ("Lower", 10)]
 BODIES = ["b1", "b2 with  spaces\n", ""]
 
 
 def variants(ctx, name, ns):
-    """spellings under which the statement says the page must be found"""
+    """(spelling, bare name it denotes) pairs under which the statement says the page must be found"""
     if ns == 0:
-        return [name, name.replace(" ", "_"), "Main:" + name]
+        return [(name, name), (name.replace(" ", "_"), name), ("Main:" + name, name)]
     local = ctx.LOCAL_NS_NAME_BY_ID[ns]
     prefixes = [local + ":", local.lower() + ":", local.upper() + ":"]
     for key, d in ctx.NAMESPACE_DATA.items():
         if d["id"] == ns:
             prefixes += [a + ":" for a in d["aliases"]]
-    out = [name, name[:1].lower() + name[1:]]
+    lowfirst = name[:1].lower() + name[1:]
+    out = [(name, name), (lowfirst, lowfirst)]
     for p in prefixes:
-        out += [p + name, p + name.replace(" ", "_")]
+        out += [(p + name, name), (p + name.replace(" ", "_"), name)]
     return out
+
+
+def expected_row(model, ctx, bare, ns):
+    """exact spelling first, then the spelling with the first letter upper-cased (outside the main namespace)"""
+    row = model.get(model_key(bare, ns, ctx))
+    if row is None and ns != 0:
+        row = model.get(model_key(bare[:1].upper() + bare[1:], ns, ctx))
+        return row, model_key(bare[:1].upper() + bare[1:], ns, ctx)[0]
+    return row, model_key(bare, ns, ctx)[0]
 
 
 def non_variants(name, ns):
@@ -114,8 +124,8 @@ def run_sequence(seq, idx):
                 model[model_key(name, ns, ctx)] = {"body": None, "redirect_to": target_full, "model": "wikitext"}
             elif op[0] == "lookup":
                 name, ns = PAGES[op[1]]
-                want = model.get(model_key(name, ns, ctx))
-                for v in variants(ctx, name, ns):
+                for v, bare in variants(ctx, name, ns):
+                    want, want_title = expected_row(model, ctx, bare, ns)
                     got = ctx.get_page(v, ns)
                     ex = ctx.page_exists(v, ns)
                     if (got is not None) != ex:
@@ -128,11 +138,11 @@ def run_sequence(seq, idx):
                         continue
                     if got is None:
                         fail("core:Wtp.get_page#finds-latest-under-every-spelling",
-                             f"{v!r} ns={ns} not found; stored {model_key(name, ns, ctx)}",
+                             f"{v!r} ns={ns} not found; stored {want_title}",
                              {"sequence": seq[: step + 1], "spelling": v}, "not-found")
                         continue
                     if (got.body, got.redirect_to, got.model) != (want["body"], want["redirect_to"], want["model"]) \
-                            or got.title != model_key(name, ns, ctx)[0] or got.namespace_id != ns:
+                            or got.title != want_title or got.namespace_id != ns:
                         fail("core:Wtp.get_page#returns-most-recently-added-row",
                              f"{v!r} ns={ns}: got {(got.title, got.body, got.redirect_to, got.model)} want {want}",
                              {"sequence": seq[: step + 1], "spelling": v}, "stale-or-wrong-row")
@@ -141,13 +151,28 @@ def run_sequence(seq, idx):
                     if want["redirect_to"] is None:
                         wb = want["body"]
                     else:
-                        tgt = model.get((want["redirect_to"], ns))
-                        wb = None if tgt is None or tgt["redirect_to"] is not None else tgt["body"]
+                        # one hop, no_redirect=True: the exact target spelling, else its upper-cased-first twin,
+                        # whichever is stored and is not itself a redirect
+                        rt = want["redirect_to"]
+                        pfx = "" if ns == 0 else ctx.LOCAL_NS_NAME_BY_ID[ns] + ":"
+                        bare_t = rt[len(pfx):] if rt.startswith(pfx) else rt
+                        cands = [(pfx + bare_t, ns)] + ([(pfx + bare_t[:1].upper() + bare_t[1:], ns)] if ns != 0 else [])
+                        wb = None
+                        for ck in cands:
+                            tgt = model.get(ck)
+                            if tgt is not None and tgt["redirect_to"] is None:
+                                wb = tgt["body"]
+                                break
                     if body != wb:
                         fail("core:Wtp.get_page_body#one-hop-redirect-resolution",
                              f"{v!r} ns={ns}: body {body!r} want {wb!r}", {"sequence": seq[: step + 1], "spelling": v})
+                for v, _b in variants(ctx, name, ns)[:3]:
+                    nr = ctx.get_page(v, ns, True)
+                    if nr is not None and nr.redirect_to is not None:
+                        fail("core:Wtp.get_page#no_redirect-never-returns-a-redirect", f"{v!r} ns={ns}: {nr}",
+                             {"sequence": seq[: step + 1], "spelling": v}, "redirect-returned")
                 for v in non_variants(name, ns):
-                    if model.get(model_key(v, ns, ctx)) is None and ctx.get_page(v, ns) is not None:
+                    if expected_row(model, ctx, v, ns)[0] is None and ctx.get_page(v, ns) is not None:
                         fail("core:Wtp.get_page#titles-otherwise-case-sensitive",
                              f"{v!r} ns={ns} found although only {name!r} may be stored",
                              {"sequence": seq[: step + 1], "spelling": v}, "case-insensitive-hit")
